@@ -302,6 +302,13 @@ class Interp:
         return None
 
     def bind(self, qualname, a, defaults, kwdefaults, args, kwargs):
+        try:
+            return self._bind(qualname, a, defaults, kwdefaults, args, kwargs)
+        except TypeError as exc:
+            exc._symex_bind = True  # raised at the call site, not inside the callee
+            raise
+
+    def _bind(self, qualname, a, defaults, kwdefaults, args, kwargs):
         names = [x.arg for x in a.posonlyargs + a.args]
         locs = {}
         args = list(args)
